@@ -447,8 +447,12 @@ func runC01(ctx *core.Ctx) {
 	if only == "" || only == "schema" {
 		schemacorr.Run(ctx) // gojsonschema vs Schema.conforms (harness/schema.go): the tie behind Props/C01Schema.lean
 	}
+	if only == "repeat" {
+		c01Repeats(ctx)
+	}
 	if only == "" || only == "oracle" {
-		c01Valid(ctx) // combinations of valid attribute spellings (c01_valid.go)
+		c01Repeats(ctx) // every list of the valid catalogue with repeated elements in every arrangement (c01_repeat.go)
+		c01Valid(ctx)   // combinations of valid attribute spellings (c01_valid.go)
 		c01Tags(ctx, rich)
 		c01Missing(ctx)
 		c01Kinds(ctx, sch, rich)
